@@ -107,7 +107,9 @@ def gen_cases(ctx):
     return cases
 
 
-def drain(engine, handler, cap=60):
+def drain(engine, handler, cap=60, log=None):
+    def activity():
+        return sum(len(log[k]) for k in ("seen", "complex", "execs", "aevents")) if log is not None else None
     hist = []
     for _ in range(cap):
         sz = SE.sizes(engine, handler)
@@ -116,13 +118,15 @@ def drain(engine, handler, cap=60):
             return True
         if n > 300:              # a pattern that feeds on its own complex / action events: the stream only grows
             return False
-        hist.append(tuple(sz))
+        hist.append((tuple(sz), activity()))
         engine.update()
-    sz = tuple(SE.sizes(engine, handler))
-    if sum(sz) == 0:
+    sz = (tuple(SE.sizes(engine, handler)), activity())
+    if sum(sz[0]) == 0:
         return True
-    if len(hist) >= 30 and all(h == sz for h in hist[-30:]):
-        return "stuck %s" % (sz,)      # thirty update() calls moved nothing: something is stranded in a queue
+    if log is not None and len(hist) >= 30 and all(h == sz for h in hist[-30:]):
+        # thirty update() calls moved nothing and produced nothing (a pattern feeding on its own output keeps
+        # producing events with constant queue sizes: that is not this): something is stranded in a queue
+        return "stuck %s" % (sz[0],)
     return False
 
 
@@ -131,7 +135,7 @@ def work(case):
     out, engine, handler, log = SE.run_ops(ed, ops)
     fail = None
     adds = [op[1] for op in ops if op[0] == "add"]
-    quiescent = drain(engine, handler)
+    quiescent = drain(engine, handler, log=log)
 
     def bad(sig, what, detail=None):
         return dict(signature=sig, what=what, detail=detail)
@@ -254,6 +258,12 @@ def gen_pool_cases(ctx):
                 cfg = dict(phen=phen, maxcache=rng.choice([0, 20]), idbase=1000)
             else:
                 cfg = G.rand_config(rng, maxblocks=3)
+                # fed-back complex / action events start no run (a pattern that feeds on its own output only grows:
+                # with a seed that draws one, the drain phase of this correspondence took more than 15 minutes)
+                for _ph, ps in cfg["phen"]:
+                    for p in ps:
+                        b0 = p["blocks"][0]
+                        b0["preds"] = [("and", ("kind", 0), q) for q in b0["preds"]]
             phs = [k for k, _ in cfg["phen"]]
             ed = dict(cfg=cfg, tr=tr, td=td, tp=tp, tf=tf, early=early, local_only=rng.random() < 0.8,
                       datagen=[(k, 70 + k) for k in phs if rng.random() < 0.5],
